@@ -87,6 +87,8 @@ def canon_dump(text, strip_owner=True):
 
 def main():
     ck = vlib.Check('C13')
+    # the accessor table of the lazy-loading theorem is regenerated from the source under test (translator)
+    subprocess.run([sys.executable, os.path.join(vlib.VERIF, 'translate', 'accessors.py'), vlib.REPO], check=True, stdout=subprocess.DEVNULL)
     ck.coq()
     b = ck.build()
     tool = vlib.harness(b, 'dbtool', ['dbtool.cxx'])
